@@ -348,7 +348,7 @@ class CPV(base.base):
             sf(self, "package", "-".join(pkg_chunks))
 
     def __hash__(self):
-        return hash(self.cpvstr)
+        return hash(self.key)
 
     def __repr__(self):
         return f"<{self.__class__.__name__} cpvstr={getattr(self, 'cpvstr', None)} @{id(self):#8x}>"
